@@ -620,13 +620,29 @@ func c15WS(w *W) {
 			return
 		}
 		url := l.Address()
-		// a client offering another sub-protocol is refused
-		bad := wsDialer("bogus.sp.nanomsg.org")
-		if c, _, err := bad.Dial(url, nil); err == nil {
-			c.Close()
-			w.Failf("C15/ws-wrong-subprotocol-accepted", "%s listener accepted a WebSocket client that offered only bogus.sp.nanomsg.org", kind)
-			return
+		// a client offering anything but exactly "<self>.sp.nanomsg.org" is
+		// refused: an unknown name, the name of each other SP protocol (PAIR
+		// and PAIR1 share a prefix), near misses of the listener's own name
+		self := info.SelfName
+		offers := []string{"bogus.sp.nanomsg.org", self + "1.sp.nanomsg.org", self + ".sp.nanomsg.org.", self + ".sp.nanomsg.com",
+			self[:len(self)-1] + ".sp.nanomsg.org", strings.ToUpper(self) + ".sp.nanomsg.org", self, ".sp.nanomsg.org", "x" + self + ".sp.nanomsg.org", self + ".sp.nanomsg.orgx"}
+		for _, other := range []string{"pair", "pair1", "pub", "sub", "req", "rep", "push", "pull", "surveyor", "respondent", "bus", "star"} {
+			if other != self {
+				offers = append(offers, other+".sp.nanomsg.org")
+			}
 		}
+		nbad := 1 + w.Choose(simrt.SProg, 3)
+		for k := 0; k < nbad; k++ {
+			offer := offers[w.Choose(simrt.SProg, len(offers))]
+			bad := wsDialer(offer)
+			if c, _, err := bad.Dial(url, nil); err == nil {
+				c.Close()
+				w.Failf("C15/ws-wrong-subprotocol-accepted", "%s listener accepted a WebSocket client that offered only %q (the mapping requires %q)", kind, offer, self+".sp.nanomsg.org")
+				return
+			}
+			w.Fault("proto-refuse")
+		}
+		w.Probe("ws-foreign-subprotocol-refused")
 		good := wsDialer(info.SelfName + ".sp.nanomsg.org")
 		c, _, err := good.Dial(url, nil)
 		if err != nil {
